@@ -98,6 +98,13 @@ pub fn replay<W: Write>(line: &str, out: &mut W) {
 pub fn run<W: Write>(opts: &Opts, out: &mut W) {
     let mut rng = Rng::new(opts.seed ^ 0xC19);
     let n: u64 = if opts.tier_thorough { 20000 } else { 2500 };
+    // the longest read-ahead of the sub-image loop, at several bit alignments (a few large streams)
+    for k in 0..(if opts.tier_thorough { 16u32 } else { 4 }) {
+        if opts.mine(k as u64) {
+            let data = crate::synth::backref_heavy(&mut rng.fork(0xbac0 + k as u64), k * 3 + k / 4);
+            situ_case(out, &format!("situ-backref-heavy-{k}"), "vp8l", &data, 2048, 2048);
+        }
+    }
     for i in 0..n {
         if !opts.mine(i) {
             continue;
